@@ -64,9 +64,6 @@ impl R {
     pub fn property(self) -> &'static str {
         &RULE_IDS[self as usize][..3]
     }
-    pub fn from_id(s: &str) -> Option<R> {
-        ALL_RULES.iter().copied().find(|r| r.id() == s)
-    }
 }
 
 pub const N_RULES: usize = R::_count as usize;
